@@ -328,7 +328,8 @@ class SpecFun:
 
     registry = {}
 
-    def __init__(self, name, extra_sorts, seq_sort, result_sort, zero, one, plus, nonneg=False):
+    def __init__(self, name, extra_sorts, seq_sort, result_sort, zero, one, plus, nonneg=False, store_frame=False):
+        self.store_frame = store_frame
         self.name = name
         self.f = z3.Function(name, *(list(extra_sorts) + [seq_sort, result_sort]))
         self.nextra = len(extra_sorts)
@@ -359,6 +360,11 @@ class SpecFun:
             out.append(app == acc)
         if k not in (z3.Z3_OP_SEQ_EMPTY, z3.Z3_OP_SEQ_UNIT):
             out.append(z3.Implies(z3.Length(s) == 0, app == self.zero(*extra)))
+        if self.store_frame and extra and z3.is_app_of(extra[0], z3.Z3_OP_STORE):
+            # h(Store(a, k, v), s) == h(a, s) when k does not occur in s
+            st = extra[0]
+            inner = self.f(*([st.arg(0)] + extra[1:] + [s]))
+            out.append(z3.Implies(z3.Not(z3.Contains(s, z3.Unit(st.arg(1)))), app == inner))
         if self.nonneg:
             out.append(app >= 0)
         return out
@@ -407,6 +413,21 @@ flat_aw = SpecFun('flat_aw', [], z3.SeqSort(SeqAwS), SeqAwS,
 all_empty_md = SpecFun('all_empty_md', [], SeqSeqMdS, z3.BoolSort(),
                        zero=lambda: z3.BoolVal(True), one=lambda ml: z3.Length(ml) == 0,
                        plus=lambda a, b: z3.And(a, b))
+
+
+_vals_of = {}
+
+
+def vals_of(arr_sort):
+    """vals_of(arr, keys) = [arr[k] for k in keys]  (dict.values() in key order)"""
+    key = str(arr_sort)
+    if key not in _vals_of:
+        ks, vs = arr_sort.domain(), arr_sort.range()
+        _vals_of[key] = SpecFun('vals_of_%d' % len(_vals_of), [arr_sort], z3.SeqSort(ks), z3.SeqSort(vs),
+                                zero=lambda a: z3.Empty(z3.SeqSort(vs)),
+                                one=lambda a, k: z3.Unit(z3.Select(a, k)),
+                                plus=lambda x, y: z3.Concat(x, y), store_frame=True)
+    return _vals_of[key]
 
 
 def _walk(expr, seen, out):
